@@ -282,11 +282,11 @@ func TestC09(t *testing.T) {
 	defer r.Finish(t)
 	rounds := 8
 	if r.Thorough() {
-		rounds = 60
+		rounds = 30
 	}
 	r.Rule(fmt.Sprintf("rapid-generated sets of 4..16 jobs (File recipes from the import-scenario generator with competing names, plausible programs, random DSL trees); every job is rendered alone (reference), then all jobs sequentially in 3 random permutations (build all then render all; build and render alternating), then concurrently on one goroutine per job released by a barrier, %d rounds, the test binary being built with -race; and sets of 2..3 Files with different prefix / hints / local path that share sub-statements (the same Code value added to each), rendered one after another in random orders and compared with the same Files built from unshared copies; non-trivial = >= 2 jobs that register imports; distinct by job set", rounds))
 	r.Assume("goroutine interleavings are sampled by the Go scheduler, not enumerated; the sequential-history part is deterministic")
-	hx.Rapid(r, t, hx.Check[Case]{Name: "independent_jobs", Fn: func(c Case) error { r.Checkpoint("independent_jobs", c); return check(c) }}, r.N(60, 300), func(rt *rapid.T) Case {
+	hx.Rapid(r, t, hx.Check[Case]{Name: "independent_jobs", Fn: func(c Case) error { r.Checkpoint("independent_jobs", c); return check(c) }}, r.N(60, 100), func(rt *rapid.T) Case {
 		n := rapid.IntRange(4, 16).Draw(rt, "njobs")
 		c := Case{Rounds: rounds, Nonce: rapid.IntRange(0, 1<<20).Draw(rt, "nonce")}
 		for i := 0; i < n; i++ {
@@ -297,7 +297,7 @@ func TestC09(t *testing.T) {
 		r.ClassN("jobs", n)
 		return c
 	})
-	hx.Rapid(r, t, hx.Check[Case]{Name: "shared_code", Fn: check}, r.N(300, 3000), func(rt *rapid.T) Case {
+	hx.Rapid(r, t, hx.Check[Case]{Name: "shared_code", Fn: check}, r.N(300, 1500), func(rt *rapid.T) Case {
 		// shared sub-statements referencing colliding paths
 		nshared := rapid.IntRange(1, 3).Draw(rt, "nshared")
 		var shared []*recipe.Node
